@@ -79,29 +79,44 @@ def norm_model(line, binary):
     head, _, evs = line.partition(' | ')
     cid, code, msg = head.split(' ')
     out = []
-    try:
-        for e in ([x for x in evs.split(' ; ')] if evs else []):
-            p = e.split(' ')
-            if p[0] == 'opts':
-                vb = p[3]
-                if p[2] == '1':
-                    vb = conv_val(('R' if binary else 'T') + p[3], 'd')
-                else:
-                    vb = '-'
-                out.append('opts %s %s %s' % (p[1], p[2], vb))
-            elif p[0] in ('dual', 'primal'):
-                out.append(p[0] + ' ' + conv_vec(p[1:5], 'd', False))
-            elif p[0] == 'cast':
-                conv_val(p[1], 'i')      # (int)x evaluated but not delivered: only the range matters
-            elif p[0] == 'objno':
-                out.append('objno %s %s' % (conv_val(p[1], 'i'), conv_val(p[2], 'i')))
-            elif p[0] == 'suf':
-                ctx = 'd' if int(p[1]) & 4 else 'i'
+
+    def bad_line():
+        return '%s code=BadLine msg=1 | %s' % (cid, ' ; '.join(out)), None
+
+    for e in ([x for x in evs.split(' ; ')] if evs else []):
+        p = e.split(' ')
+        if p[0] == 'opts':
+            vb = conv_val(('R' if binary else 'T') + p[3], 'd') if p[2] == '1' else '-'
+            out.append('opts %s %s %s' % (p[1], p[2], vb))
+        elif p[0] in ('dual', 'primal'):
+            out.append(p[0] + ' ' + conv_vec(p[1:5], 'd', False))
+        elif p[0] in ('cast', 'objno'):
+            try:
+                vals = [conv_val(v, 'i') for v in p[1:]]   # (int)x of each number, in evaluation order
+            except CastUB:
+                # with the range check the line is rejected (ReportBadLine) before anything is delivered
+                return bad_line() if (P4['objno'] and not binary) else ('%s ABORT' % cid, 'cast')
+            if p[0] == 'objno':
+                out.append('objno %s %s' % tuple(vals))
+        elif p[0] == 'suf':
+            ctx = 'd' if int(p[1]) & 4 else 'i'
+            try:
                 out.append('suf %s %s %s %s' % (p[1], p[2], p[3], conv_vec(p[4:8], ctx, True)))
-            else:
-                out.append(e)
-    except CastUB:
-        return '%s ABORT' % cid, 'cast'
+            except CastUB:
+                if not (P4['isuf'] and not binary):
+                    return '%s ABORT' % cid, 'cast'
+                # the failing element ends the vector with Bad_Line; elements before it were delivered
+                good = []
+                for it in p[7].split(','):
+                    i, v = it.split(':')
+                    try:
+                        good.append(i + ':' + conv_val(v, ctx))
+                    except CastUB:
+                        break
+                out.append('suf %s %s %s %s BadLine 0 %s' % (p[1], p[2], p[3], p[4], ','.join(good) or '-'))
+                return bad_line()
+        else:
+            out.append(e)
     c = code.split('=')[1]
     if c == 'UB-oob':
         return '%s ABORT' % cid, 'oob'
@@ -187,7 +202,8 @@ def gen_cases(rng, n_cases):
     return cases
 
 
-FX = [0]   # 1 when the tree under test has repo_patches/C14-sol-reader-bounds.diff applied (decided by a behavioural probe)
+FX = [0]   # model flags word for the tree under test, decided by behavioural probes: bit0 = bounds fix 602adf1 (fx), bit1 = Bad_Options message (fm)
+P4 = {'objno': False, 'isuf': False}   # tree has repo_patches/C14-objno-int-range.diff / C14-int-suffix-range.diff (number values are outside the Lean model)
 
 
 def case_line(c):
@@ -298,6 +314,30 @@ def valgrind_confirm(ck, cases):
     return res
 
 
+def decide_variant(ck, tag='probe'):
+    """behavioural probes: which fixes does the tree under test have?  Selects the model variant (fx, fm) and the
+    expected treatment of out-of-range numbers (outside the Lean model)."""
+    base = b'm\n\n'
+    probes = [
+        dict(id='p-bounds', family='probe', nv=0, nc=0, pol=(0, 'all', 'all', 'all'), bytes=base + b'objno 0 0\nsuffix 0 0 600 0 0\nfoo\n'),
+        dict(id='p-optmsg', family='probe', nv=0, nc=0, pol=(1, 'all', 'all', 'all'), bytes=base + b'Options\n3\n0\n1\n0\n0\n0\n0\n0\n'),
+        dict(id='p-objno', family='probe', nv=0, nc=0, pol=(0, 'all', 'all', 'all'), bytes=base + b'objno 1e30 0\n'),
+        dict(id='p-isuf', family='probe', nv=0, nc=0, pol=(0, 'all', 'all', 'all'), bytes=base + b'objno 0 0\nsuffix 0 1 4 0 0\nfoo\n0 1e30\n'),
+    ]
+    pi, _, _, _ = run_streams(ck, probes, tag)
+    fx = 0 if ' ABORT ' in pi[0] else 1
+    fm = 1 if 'code=BadOptions msg=1' in pi[1] else 0
+    FX[0] = fx + 2 * fm
+    P4['objno'] = ' ABORT ' not in pi[2]
+    P4['isuf'] = ' ABORT ' not in pi[3]
+    variant = {'bounds_fix_602adf1': bool(fx), 'badoptions_message': bool(fm), 'objno_int_range': P4['objno'], 'int_suffix_range': P4['isuf']}
+    ck.log('probes: %s' % variant)
+    ck.cov['tree_variant'] = variant
+    if not fx:
+        ck.notes.append('the tree under test behaves like the reader BEFORE ampl/mp 602adf1 (bounds fix missing): compared with the history variant of the model')
+    return variant
+
+
 KNOWN_UB_SIG = {
     'oob': 'text:gsufread-name-index:out-of-bounds',
     'overflow': 'suffix-header:signed-int-overflow',
@@ -309,7 +349,7 @@ KNOWN_UB_SIG = {
 def run(ck):
     ck.level = 'proof'
     proof_ok, failing = ck.proof_stage('MpVerif.C14.Props', 'MpVerif/C14/Props.lean', 'C14_',
-                                        ['MpVerif/C14/*.lean'], expect_min=18)
+                                        ['MpVerif/C14/*.lean'], expect_min=19)
     ck.log('proof stage: ok=%s failing=%s' % (proof_ok, failing[:12]))
     if ck.tier == 'thorough' and proof_ok:
         bad = ck.leanchecker(['MpVerif.C14.Props'])
@@ -317,13 +357,7 @@ def run(ck):
             failing += ['leanchecker rejected %s' % m for m in bad]
             proof_ok = False
 
-    # behavioural probe: is the bounds patch applied in the tree under test?  (decides which variant of the model is compared)
-    probe = dict(id='probe', family='probe', nv=0, nc=0, pol=(0, 'all', 'all', 'all'),
-                 bytes=b'm\n\nobjno 0 0\nsuffix 0 0 600 0 0\nfoo\n')
-    pi, _, _, _ = run_streams(ck, [probe], 'probe')
-    FX[0] = 0 if ' ABORT ' in pi[0] else 1
-    ck.log('probe: %s -> comparing against the %s model' % (pi[0][:60], 'patched (fx=1)' if FX[0] else 'as-is (fx=0)'))
-    ck.cov['model_variant'] = 'patched' if FX[0] else 'as-is'
+    decide_variant(ck)
     rng = random.Random(ck.seed * 1000003 + 14)
     n_cases = 2500 if ck.tier == "quick" else 20000
     cases = gen_cases(rng, n_cases)
